@@ -85,10 +85,10 @@ Definition file_ok (f : Writer.file) : bool :=
 Definition addr_ok (m : Writer.msg) : bool :=
   match m_from m with Some f => good_value f | None => false end
   && match m_addr m with
-     | [(k1, tos)] => bytes_eqb k1 hdr_to && negb (Nat.eqb (length tos) 0) && forallb good_value tos
+     | [(k1, tos)] => bytes_eqb k1 hdr_to && negb (Nat.eqb (length tos) 0) && good_value (join (bs ", ") tos)
      | [(k1, tos); (k2, ccs)] =>
-         bytes_eqb k1 hdr_to && negb (Nat.eqb (length tos) 0) && forallb good_value tos
-         && bytes_eqb k2 hdr_cc && negb (Nat.eqb (length ccs) 0) && forallb good_value ccs
+         bytes_eqb k1 hdr_to && negb (Nat.eqb (length tos) 0) && good_value (join (bs ", ") tos)
+         && bytes_eqb k2 hdr_cc && negb (Nat.eqb (length ccs) 0) && good_value (join (bs ", ") ccs)
      | _ => false
      end.
 
